@@ -15,10 +15,10 @@ from .. import sim, simmon, zoo
 from . import _simcases as S
 
 RULE = (
-    "case = one simulation of a device with 2-4 terminals, terminal_psi in {0, None, 0.5, 1, 0.3+0.4j}, field in "
+    "case = one simulation of a device with 2-4 terminals on the outer rim (or a Corbino disk whose source covers the rim of the hole), terminal_psi in {0, None, 0.5, 1, 0.3+0.4j}, field in "
     "{zero, uniform, ramp}, currents in {none, const, callable}, screening on/off; or a differential pair "
     "(unpinned terminals, zero current) vs (no terminals); or one Device object solved, moved in place (translate(inplace=True) / "
-    "translation() context), solved again and solved once more after moving back. non-trivial = >= 10 update returns checked on a device "
+    "translation() context) or meshed again with another density, solved again and solved once more after moving / meshing back. non-trivial = >= 10 update returns checked on a device "
     "with >= 2 terminal sites; distinct = distinct spec"
 )
 REQUIRED_COUNTERS = ["pin_value_checks", "pinned_row_checks", "free_site_checks", "unpinned_equals_noterminal_checks", "seeded_runs", "moved_device_runs"]
@@ -46,6 +46,14 @@ def gen_cases(tier, seed):
         Ik = ["none", "const", "callable", "const"][(k // 2) % 4]
         drive = {"A": S.field_spec(rng, dev, o, Ak, b=0.2), "currents": S.current_spec(rng, dev, o, Ik, strength=0.15)}
         cases.append({"kind": "pin", "device": dev, "options": o, "drive": drive, "monitors": ["pin"], "cost": 30 if scr else 6})
+    nc = 2 if tier == "quick" else 12
+    for k in range(nc):
+        # a terminal that sits on the rim of a HOLE (Corbino geometry): hole-rim sites are terminal sites too
+        dev = zoo.gen_corbino(rng, size="small")
+        o = S.base_options(rng, adaptive=bool(k % 2), steps=60)
+        o["terminal_psi"] = [0.0, 0.5, "none", [0.3, 0.4]][k % 4]
+        drive = {"A": S.field_spec(rng, dev, o, ["uniform", "zero"][k % 2], b=0.15), "currents": S.current_spec(rng, dev, o, ["const", "none"][(k // 2) % 2], strength=0.1)}
+        cases.append({"kind": "pin", "corbino": True, "device": dev, "options": o, "drive": drive, "monitors": ["pin"], "cost": 8})
     ns = 4 if tier == "quick" else 24
     for k in range(ns):
         # a run continued from a seed solution whose terminal sites hold another value
@@ -63,7 +71,10 @@ def gen_cases(tier, seed):
         o["terminal_psi"] = [0.0, 0.5, [0.3, 0.4]][k % 3]
         drive = {"A": S.field_spec(rng, dev, o, "uniform", b=0.2), "currents": S.current_spec(rng, dev, o, ["const", "none"][k % 2], strength=0.15)}
         ang = float(rng.uniform(0, 2 * np.pi))
-        cases.append({"kind": "moved", "device": dev, "options": o, "drive": drive, "monitors": ["pin"], "move": ["translate_inplace", "translation_context"][k % 2],
+        if k % 3 == 2:
+            dev["holes"] = []
+            dev["film"]["points"] = 4  # corners only: the boundary sites are numbered by the mesher, differently for each density
+        cases.append({"kind": "moved", "device": dev, "options": o, "drive": drive, "monitors": ["pin"], "move": ["translate_inplace", "translation_context", "remesh"][k % 3],
                       "shift_frac": [[0.3, 0.03][(k // 2) % 2] * np.cos(ang), [0.3, 0.03][(k // 2) % 2] * np.sin(ang)], "cost": 12})
     m = 3 if tier == "quick" else 20
     for k in range(m):
@@ -113,6 +124,16 @@ def _run_moved(spec):
         return {"violations": [], "counters": {"refused_mesh": 1}, "classes": ["refused"], "nontrivial": False}
     if V:  # the unmoved run must be clean for the moved ones to be judged
         return {"violations": V, "counters": C, "classes": ["moved/" + spec["move"]], "nontrivial": False}
+    if spec["move"] == "remesh":
+        # the same Device object meshed again with another density, then solved again; finally the first density again
+        m = spec["device"]["mesh"]
+        device.make_mesh(max_edge_length=0.7 * m["max_edge_length"], min_points=m.get("min_points"), smooth=m.get("smooth", 0))
+        one("remeshed_finer")
+        device.make_mesh(max_edge_length=m["max_edge_length"], min_points=m.get("min_points"), smooth=m.get("smooth", 0))
+        one("remeshed_back")
+        C["moved_device_runs"] = 2
+        return {"violations": V[:10], "counters": C, "classes": ["moved/remesh", f"terminals={len(spec['device']['terminals'])}"], "nontrivial": n_ok == 3,
+                "sample": {"move": "remesh", "runs_with_10_updates": n_ok}}
     if spec["move"] == "translation_context":
         ctx = device.translation(dx, dy)
     else:
@@ -131,7 +152,7 @@ def _run_moved(spec):
 def run_case(spec):
     if spec["kind"] == "pin":
         out = S.run_sim_case(spec, "C06")
-        out["classes"] = S.classes_of(spec)
+        out["classes"] = S.classes_of(spec) + (["corbino"] if spec.get("corbino") else [])
         c = out["counters"]
         out["nontrivial"] = c.get("update_calls", 0) >= 10 and (c.get("pin_value_checks", 0) > 0 or c.get("free_site_checks", 0) > 0)
         return out
